@@ -163,11 +163,11 @@ def r3(ctx):
         ctx.touch(fn)
         params = {}
         if fn.name.endswith('::createAnswerKey'):
-            params = {'idLen': (0, 4)}
+            params = {fn.P(len(fn.params) - 1): (0, 4)}     # the ID length, clamped by its only caller (C15.R1)
         if fn.name.endswith('NumberDataType::NumberDataType'):
             # the shifting constructor is the bit-type variant: bit types fit one byte (C05.R1 row invariants; derive()
             # checks bitCount + firstBit <= 8)
-            params = {'bitCount': (1, 8)}
+            params = {fn.P(1): (1, 8)}
         try:
             b = BoundsX(fb, fn, member_ranges=member_ranges, param_ranges=params)
             r = b.at([(nid, v['rhs']) for nid, v in sites])
